@@ -352,6 +352,14 @@ func (s *indexKVStore) getOrCreateValue(bucketID uint32, key []byte,
 
 	// create new value
 	if createFn == nil {
+		// NOTE: snapshot is taken before looking up memory store, if a flush completes in between, the key maybe moved
+		// from memory store into a file which the snapshot cannot read, need look up again using new snapshot.
+		s.lock.RLock()
+		flushed := s.snapshot != snapshot
+		s.lock.RUnlock()
+		if flushed {
+			return s.getOrCreateValue(bucketID, key, nil)
+		}
 		return 0, false, false, nil
 	}
 	id, isNew, err = s.createValue(bucketID, key, snapshot, createFn)
